@@ -124,6 +124,7 @@ pub enum Key {
     Validator([u8; ADDRESS_LEN]),
     Upgrade(u8),
     BlockTimestamp,
+    LastTxId([u8; ADDRESS_LEN]),
 }
 /// every stored value is carried as a u128 payload; the typed accessors below decode it per key family
 pub type Val = u128;
@@ -154,6 +155,7 @@ impl Key {
             Key::Validator(a) => (19, a, 0),
             Key::Upgrade(k) => (20, [0, 0], k),
             Key::BlockTimestamp => (21, [0, 0], 0),
+            Key::LastTxId(a) => (22, a, 0),
         };
         (t << 24) | ((a[0] as u32) << 16) | ((a[1] as u32) << 8) | (b as u32)
     }
@@ -376,6 +378,9 @@ pub mod bridge_shim {
         fn put_withdrawal_event_rollup_block_number<T: AddressBytes>(&mut self, address: &T, withdrawal_event_id: &EventId, block_num: u64) -> eyre::Result<()> {
             store().put(Key::WithdrawalEvent(*address.address_bytes(), *withdrawal_event_id), block_num as Val); Ok(())
         }
+        fn put_last_transaction_id_for_bridge_account<T: AddressBytes>(&mut self, address: &T, tx_id: TransactionId) -> eyre::Result<()> {
+            store().put(Key::LastTxId(*address.address_bytes()), tx_id.0 as Val); Ok(())
+        }
         fn cache_deposit_event(&mut self, deposit: Deposit) {
             let s = store();
             assert!(s.n_deposits < DCAP, "deposit log capacity exceeded");
@@ -466,6 +471,24 @@ pub mod fees_shim {
     impl<T: StateWrite + ?Sized> StateWriteShim for T {}
 }
 pub use fees_shim::{StateReadExt as _, StateWriteShim as _};
+
+pub mod upgrades_shim {
+    use super::*;
+    /// upgrade change names are opaque ids; presence of Key::Upgrade(change) means "activated"
+    pub struct Blackburn; impl Blackburn { pub const NAME: u8 = 1; }
+    pub struct Aspen; impl Aspen { pub const NAME: u8 = 2; }
+    pub struct DisableableBridgeAccountDeposits; impl DisableableBridgeAccountDeposits { pub const NAME: u8 = 11; }
+    pub struct AllowIbcRelayToFail; impl AllowIbcRelayToFail { pub const NAME: u8 = 12; }
+    pub struct ValidatorUpdateActionChange; impl ValidatorUpdateActionChange { pub const NAME: u8 = 13; }
+    pub trait StateReadExt: StateRead {
+        fn get_upgrade_change_info(&self, _upgrade: &u8, change: &u8) -> eyre::Result<Option<()>> {
+            if let Some(e) = io_err() { return e; }
+            Ok(store().get(Key::Upgrade(*change)).map(|_| ()))
+        }
+    }
+    impl<T: StateRead + ?Sized> StateReadExt for T {}
+}
+pub use upgrades_shim::{StateReadExt as _, Blackburn, Aspen, DisableableBridgeAccountDeposits, AllowIbcRelayToFail, ValidatorUpdateActionChange};
 
 pub fn reset_store() {
     let s = store();
